@@ -142,7 +142,9 @@ class GroupAdditivityScheme(Scheme):
         groups = self._AssignGroup(mol)
         descriptors = self._AssignDescriptor(mol, clean_mol)
         all_descriptors = groups.copy()
-        all_descriptors.update(descriptors)
+        # a group and a correction descriptor may share a name (e.g. 'CC')
+        for name, count in descriptors.items():
+            all_descriptors[name] = all_descriptors.get(name, 0) + count
         return all_descriptors
 
     def _AssignCenterPattern(self, mol, debug=0):
